@@ -20,7 +20,10 @@ TraceInit == l = 1 /\ m = InitM(<<>>, <<>>)
 TraceLike ==
   /\ l <= Len(Trace)
   /\ Trace[l].ev = "Like"
-  /\ LET d == Declarative(Trace[l].pat, Trace[l].str) IN
+  \* `like` is true only of strings: a value of another kind with the same content (bytes, a one-element list, ...)
+  \* never matches; an ill-formed pattern is rejected whatever the value
+  /\ LET d0 == Declarative(Trace[l].pat, Trace[l].str)
+         d == IF d0 = "reject" \/ Trace[l].kind = "string" THEN d0 ELSE "false" IN
        /\ Trace[l].res = d
        /\ Trace[l].res2 = d
   /\ m' = Run(InitM(Trace[l].pat, Trace[l].str))
